@@ -150,6 +150,13 @@ type c19ModVarsCase struct {
 
 type c19MapLoader map[string]string
 
+func (l c19MapLoader) LoadJSON(name string) (any, error) {
+	if _, ok := l["json:"+name]; !ok {
+		return nil, fmt.Errorf("module not found: %q", name)
+	}
+	return []any{"data of " + name}, nil
+}
+
 func (l c19MapLoader) LoadModule(name string) (*gojq.Query, error) {
 	src, ok := l[name]
 	if !ok {
@@ -190,7 +197,19 @@ func c19BodyModVars(c *run.Ctx) {
 		mods := map[string]string{}
 		var main string
 		want := []any{vals[k].V, vals[k].V}
-		switch r.IntN(7) {
+		switch r.IntN(9) {
+		case 7:
+			// a data import named like the variable: the importer sees the data, a module imported under an alias the Run value
+			mods["m"], mods["json:d"] = "def f: "+use+";", "x"
+			main = `import "d" as ` + use + `; import "m" as m; [m::f, ` + use + `]`
+			if r.IntN(2) == 0 {
+				main = `import "m" as m; import "d" as ` + use + `; [m::f, ` + use + `]`
+			}
+			want = []any{vals[k].V, []any{"data of d"}}
+		case 8:
+			mods["m"], mods["n"], mods["json:d"] = `import "n" as n; def f: n::g;`, "def g: "+use+";", "x"
+			main = `import "d" as ` + use + `; import "m" as m; [m::f, (` + use + ` | length)]`
+			want = []any{vals[k].V, 1}
 		case 0:
 			mods["m"] = "def f: " + use + ";"
 			main = `import "m" as m; [m::f, ` + use + `]`
